@@ -1427,14 +1427,19 @@ fn c08_case(sink: &mut Sink, w: &World, q: &Query, kind: &str, extra_tags: &[Str
             rec.coq = Some(format!("chk_run {} {} {} {mode} {}", opts_coq(w), run.st_coq, p, o));
             rec.show = Some(format!("show_run {} {} {}", opts_coq(w), run.st_coq, p));
         }
-        if let (Some(_), Some(o)) = (&run.obs.rows, &run.obs_coq) {
+        // an engine error on a query the front end accepted counts as a wrong answer; a query the
+        // front end rejects (syntax outside what this language implements) is not judged
+        let compiled = !run.tags.iter().any(|t| t == "front-end:rejected");
+        if let (true, Some(o)) = (run.obs.rows.is_some() || compiled, &run.obs_coq) {
             rec.orc = Some(format!("orc_answer {} {} {mode} {}", run.st_coq, qc, o));
             rec.ks = c08_ks(&run.st_coq, &qc, lang, run.plan_coq.as_deref());
             rec.msg = "engine rows differ from the declarative answer (bindings + clauses) of the abstract query".into();
-            results.push((lang, run.obs.clone()));
-            xl_obs.push(o.clone());
-            xl_ids.extend(rec.ks.0.iter().cloned());
-            xl_terms.push(format!("({})", rec.ks.1));
+            if run.obs.rows.is_some() {
+                results.push((lang, run.obs.clone()));
+                xl_obs.push(o.clone());
+                xl_ids.extend(rec.ks.0.iter().cloned());
+                xl_terms.push(format!("({})", rec.ks.1));
+            }
         }
         sink.emit(&rec);
     }
@@ -2127,6 +2132,27 @@ fn c10_zone(sink: &mut Sink, r: &mut Rng, ops: &[Op]) {
         1 => Ex::Or(Box::new(leaf), Box::new(gen_leaf(r, &nvars, &evars))),
         _ => leaf,
     });
+    if on_edge {
+        fn rename(e: &mut Ex, nvars: &[String]) {
+            match e {
+                Ex::Prop(v, k) if k == "w" && nvars.contains(v) => *k = "y".into(),
+                Ex::Cmp(_, a, b) | Ex::And(a, b) | Ex::Or(a, b) => {
+                    rename(a, nvars);
+                    rename(b, nvars);
+                }
+                Ex::Not(a) | Ex::IsNull(a) | Ex::IsNotNull(a) => rename(a, nvars),
+                _ => {}
+            }
+        }
+        if let Some(wh) = q.wher.as_mut() {
+            rename(wh, &nvars);
+        }
+        if let Ret::Plain(items, _) = &mut q.ret {
+            for it in items.iter_mut() {
+                rename(it, &nvars);
+            }
+        }
+    }
     let lang = if r.chance(3, 4) { Lang::Gql } else { Lang::Cypher };
     let text = q.gql_text();
     let mode = mode_of(&q);
